@@ -7,6 +7,7 @@ open NetVerif.Model.TimeSeries
 (`sz0`), and every coarser cell boundary is on that grid. -/
 theorem LInv.regroup0 {l : Level} {n : Nat} {Hm Hp : Hist} (pt sz0 : Int) (hsz0 : 0 < sz0)
     (h : LInv l n ((pt, sumAll Hp) :: Hm)) (hgrid : pt % sz0 = 0) (hdiv : l.size % sz0 = 0)
+    (hZ0 : zeroTime % sz0 = 0)
     (hin : ∀ p ∈ Hp, pt - sz0 < p.1 ∧ p.1 ≤ pt) : LInv l n (Hp ++ Hm) := by
   refine ⟨h.npos, h.szpos, h.len, h.old, h.grid, ?_, ?_⟩
   · intro i hi
@@ -17,7 +18,10 @@ theorem LInv.regroup0 {l : Level} {n : Nat} {Hm Hp : Hist} (pt sz0 : Int) (hsz0 
     obtain ⟨cb1, cb2⟩ := cell_bounds l n i
     have d0 : sz0 ∣ pt := Int.dvd_of_emod_eq_zero hgrid
     have d1 : sz0 ∣ l.size := Int.dvd_of_emod_eq_zero hdiv
-    have d2 : sz0 ∣ l.end_ := Int.dvd_trans d1 (Int.dvd_of_emod_eq_zero h.grid)
+    have d2 : sz0 ∣ l.end_ := by
+      rcases h.grid with hg | hz
+      · exact Int.dvd_trans d1 (Int.dvd_of_emod_eq_zero hg)
+      · rw [hz]; exact Int.dvd_of_emod_eq_zero hZ0
     have hlo : (pt - cellLo l n i) % sz0 = 0 := by
       rw [cb1]
       apply Int.emod_eq_zero_of_dvd
@@ -105,7 +109,7 @@ theorem lv_merge {n : Nat} {sz0 : Int} {H : Hist} {T : Int} (t v : Int) :
     exact ih _ _ f (by omega)
 
 theorem lv_regroup {n : Nat} {sz0 : Int} {Hm Hp : Hist} {T : Int} (pt : Int) (hsz0 : 0 < sz0)
-    (hgrid : pt % sz0 = 0) (hin : ∀ p ∈ Hp, pt - sz0 < p.1 ∧ p.1 ≤ pt) :
+    (hgrid : pt % sz0 = 0) (hZ0 : zeroTime % sz0 = 0) (hin : ∀ p ∈ Hp, pt - sz0 < p.1 ∧ p.1 ≤ pt) :
     ∀ (ls : List Level) (lo c : Int), LvInv n sz0 ((pt, sumAll Hp) :: Hm) T lo c ls →
       LvInv n sz0 (Hp ++ Hm) T lo c ls := by
   intro ls
@@ -114,7 +118,7 @@ theorem lv_regroup {n : Nat} {sz0 : Int} {Hm Hp : Hist} {T : Int} (pt : Int) (hs
   | cons l r ih =>
     intro lo c h
     obtain ⟨a, b, c1, d, e, f⟩ := h
-    exact ⟨LInv.regroup0 pt sz0 hsz0 a hgrid b hin, b, c1, d, e, ih _ _ f⟩
+    exact ⟨LInv.regroup0 pt sz0 hsz0 a hgrid b hZ0 hin, b, c1, d, e, ih _ _ f⟩
 
 
 theorem sumSizes_nonneg {n : Nat} {sz0 : Int} {H : Hist} {T : Int} :
@@ -147,7 +151,7 @@ theorem lv_adv {n : Nat} {sz0 : Int} {H : Hist} {T : Int} :
     · rw [if_neg (by omega)]
       simp only
       have hin : InI64 t := ⟨hmin, by simp only [sumSizes] at hcap; omega⟩
-      obtain ⟨a', b1, b2, b3⟩ := a.advanceTo t hin hb
+      obtain ⟨a', b1, b2, b3, _⟩ := a.advanceTo t hin hb c1
       have hrec := ih l.end_ (c + l.size) (l.advanceTo n t).end_ f (by omega) (by omega)
         (by simp only [sumSizes] at hcap; omega)
       refine ⟨⟨a', by rw [b3]; exact b, by rw [b3]; exact c1, b1, by rw [b3]; omega, ?_⟩, ?_⟩
@@ -156,21 +160,37 @@ theorem lv_adv {n : Nat} {sz0 : Int} {H : Hist} {T : Int} :
     · rw [if_pos (by omega)]
       exact ⟨⟨a, b, c1, by omega, e, f⟩, rfl⟩
 
-theorem lv_fresh (n : Nat) (sz0 : Int) (hn : 1 ≤ n) (hZ : zeroTime % sz0 = 0) :
-    ∀ (rs : List Int) (c : Int), 0 ≤ c → (∀ r ∈ rs, 0 < r ∧ r % sz0 = 0 ∧ r * n ≤ maxDur ∧ zeroTime % r = 0) →
-      LvInv n sz0 [] zeroTime zeroTime c (rs.map (Level.fresh n)) := by
+theorem linv_fresh0 (n : Nat) (sz : Int) (hn : 1 ≤ n) (hsz : 0 < sz) : LInv (Level.fresh n sz) n [] :=
+  linv_fresh n sz hn hsz
+
+theorem lv_fresh (n : Nat) (sz0 : Int) (hn : 1 ≤ n) (T : Int) (hT : zeroTime ≤ T) :
+    ∀ (rs : List Int) (c : Int), 0 ≤ c → (∀ r ∈ rs, 0 < r ∧ r % sz0 = 0 ∧ r * n ≤ maxDur) →
+      LvInv n sz0 [] T zeroTime c (rs.map (Level.fresh n)) := by
   intro rs
   induction rs with
   | nil => intro _ _ _; trivial
   | cons r rest ih =>
     intro c hc h
-    obtain ⟨h1, h2, h3, h4⟩ := h r (by simp)
+    obtain ⟨h1, h2, h3⟩ := h r (by simp)
     simp only [List.map_cons]
-    refine ⟨linv_fresh n r hn h1 h4, h2, h3, ?_, ?_, ?_⟩
+    refine ⟨linv_fresh0 n r hn h1, h2, h3, ?_, ?_, ?_⟩
     · show zeroTime ≤ zeroTime; omega
-    · show zeroTime ≤ zeroTime + c + r; omega
+    · show zeroTime ≤ T + c + r; omega
     · exact ih (c + r) (by omega) (fun x hx => h x (by simp [hx]))
 
+theorem lv_sizes {n : Nat} {sz0 : Int} {H : Hist} {T : Int} :
+    ∀ (ls : List Level) (lo c : Int), LvInv n sz0 H T lo c ls →
+      ∀ r ∈ ls.map (·.size), 0 < r ∧ r % sz0 = 0 ∧ r * n ≤ maxDur := by
+  intro ls
+  induction ls with
+  | nil => intro _ _ _ r hr; simp at hr
+  | cons x rest ih =>
+    intro lo c h r hr
+    obtain ⟨a, b, c1, _, _, f⟩ := h
+    simp only [List.map_cons, List.mem_cons] at hr
+    rcases hr with e | e
+    · subst e; exact ⟨a.szpos, b, c1⟩
+    · exact ih _ _ f r e
 
 /-! ### all levels along a history -/
 
@@ -186,12 +206,14 @@ structure MI (s : TS) (sz : Int) (Hm Hp : Hist) (T S : Int) : Prop where
   ss : sumSizes s.levels = S
   cap : T + S ≤ maxDur
   szpos : 0 < sz
+  hz : zeroTime % sz = 0
+  tz : zeroTime ≤ T
 
 theorem mi_mergePending {s : TS} {sz : Int} {Hm Hp : Hist} {T S : Int} (h : MI s sz Hm Hp T S) :
     MI s.mergePending sz (Hp ++ Hm) [] T S := by
-  obtain ⟨m1, _, _, m4, m5, _⟩ := ri_mergePending h.ri
+  obtain ⟨m1, _, _, m4, m5, _⟩ := ri_mergePending h.ri h.hz
   obtain ⟨l0, rest, r⟩ := h.ri
-  refine ⟨m1, ?_, ?_, h.cap, h.szpos⟩
+  refine ⟨m1, ?_, ?_, h.cap, h.szpos, h.hz, h.tz⟩
   · rw [m4, m5]
     unfold TS.mergePending
     by_cases hd : s.dirty = true
@@ -200,7 +222,7 @@ theorem mi_mergePending {s : TS} {sz : Int} {Hm Hp : Hist} {T S : Int} (h : MI s
       show LvInv s.n sz (Hp ++ Hm) T s.pendingTime 0 (s.levels.map (Level.merge s.n s.pending s.pendingTime))
       have hpe : s.pending = Obs.exact (sumAll Hp) := by rw [hps]; rfl
       rw [hpe]
-      exact lv_regroup s.pendingTime h.szpos r.pt_grid r.hp_in _ _ _
+      exact lv_regroup s.pendingTime h.szpos r.pt_grid h.hz r.hp_in _ _ _
         (lv_merge s.pendingTime (sumAll Hp) _ _ _ h.lv (Int.le_refl _))
     · rw [if_neg hd]
       have hd' : s.dirty = false := by simpa using hd
@@ -228,7 +250,7 @@ theorem mi_advance {s : TS} {sz : Int} {Hm Hp : Hist} {T S : Int} (h : MI s sz H
   rw [r.lev] at hlv hss
   have hadv := lv_adv _ _ _ t hlv hmin (by have := Int.le_max_right T t; omega)
     (by rw [hss]; have := h.cap; omega)
-  refine ⟨a1, ?_, ?_, by have := h.cap; omega, h.szpos⟩
+  refine ⟨a1, ?_, ?_, by have := h.cap; omega, h.szpos, h.hz, by have := h.tz; omega⟩
   · rw [a4, a6]
     unfold TS.advance
     rw [r.lev]
@@ -260,12 +282,12 @@ theorem mi_add {s : TS} {sz : Int} {Hm Hp : Hist} {T S : Int} (h : MI s sz Hm Hp
         (if lo < t ∧ t ≤ hi then v else 0) + (sumIn lo hi Hm + sumIn lo hi Hp) := by
   have hnn := sumSizes_nonneg _ _ _ h.lv
   have hin : InI64 t := ⟨hmin, by have := h.ss; omega⟩
-  obtain ⟨Hm', Hp', rri, hn, hs, g1, g2, g3⟩ := ri_add h.ri t v hin hnb
-  refine ⟨Hm', Hp', ⟨rri, ?_, ?_, by have := h.cap; omega, h.szpos⟩, hs⟩
+  obtain ⟨Hm', Hp', rri, hn, hs, g1, g2, g3⟩ := ri_add h.ri h.hz t v hin hnb
+  refine ⟨Hm', Hp', ⟨rri, ?_, ?_, by have := h.cap; omega, h.szpos, h.hz, by have := h.tz; omega⟩, hs⟩
   all_goals
     unfold TS.addWithTime
     have h0 : MI (if t > s.lastAdd then { s with lastAdd := t } else s) sz Hm Hp T S := by
-      refine ⟨(ri_lastAdd h.ri t).1, ?_, ?_, h.cap, h.szpos⟩
+      refine ⟨(ri_lastAdd h.ri t).1, ?_, ?_, h.cap, h.szpos, h.hz, h.tz⟩
       · split
         · exact h.lv
         · exact h.lv
@@ -312,13 +334,14 @@ theorem mi_catchUp {s : TS} {sz : Int} {Hm Hp : Hist} {T S : Int} (h : MI s sz H
     MI (s.catchUp now) sz (Hp ++ Hm) [] (max T now) S := by
   have hnn := sumSizes_nonneg _ _ _ h.lv
   have hin : InI64 now := ⟨hmin, by have := h.ss; omega⟩
-  have hri := (ri_catchUp h.ri now hin).1
+  have hri := (ri_catchUp h.ri h.hz now hin).1
   have key : MI ((if s.end0 < now then s.advance now else s).mergePending) sz (Hp ++ Hm) [] (max T now) S := by
     split
     · exact mi_mergePending (mi_advance h now hmin hmax)
     · have := mi_mergePending h
-      exact ⟨this.ri, lv_mono (Int.le_max_left _ _) _ _ _ this.lv, this.ss, by have := h.cap; omega, h.szpos⟩
-  refine ⟨hri, ?_, ?_, key.cap, h.szpos⟩
+      exact ⟨this.ri, lv_mono (Int.le_max_left _ _) _ _ _ this.lv, this.ss, by have := h.cap; omega, h.szpos, h.hz,
+        by have := h.tz; omega⟩
+  refine ⟨hri, ?_, ?_, key.cap, h.szpos, h.hz, key.tz⟩
   · unfold TS.catchUp
     show LvInv _ sz (Hp ++ Hm) (max T now) ((if s.end0 < now then s.advance now else s).mergePending).end0 0
       ((if s.end0 < now then s.advance now else s).mergePending).levels
@@ -391,6 +414,24 @@ theorem mi_range {s : TS} {sz : Int} {Hm Hp : Hist} {T S : Int} (h : MI s sz Hm 
     congr 2
     omega
 
+theorem sumSizes_clear (n : Nat) (ls : List Level) :
+    sumSizes (ls.map (fun l => Level.fresh n l.size)) = sumSizes ls := by
+  induction ls with
+  | nil => rfl
+  | cons l r ih => simp only [List.map_cons, sumSizes, ih]; rfl
+
+theorem mi_clear {s : TS} {sz : Int} {Hm Hp : Hist} {T S : Int} (h : MI s sz Hm Hp T S) :
+    MI s.clear sz [] [] T S := by
+  obtain ⟨c1, _⟩ := ri_clear h.ri h.hz
+  have hn : 1 ≤ s.n := by obtain ⟨l0, rest, r⟩ := h.ri; exact r.linv.npos
+  refine ⟨c1, ?_, ?_, h.cap, h.szpos, h.hz, h.tz⟩
+  · show LvInv s.n sz [] T zeroTime 0 (s.levels.map (fun l => Level.fresh s.n l.size))
+    have := lv_fresh s.n sz hn T h.tz (s.levels.map (·.size)) 0 (by omega) (lv_sizes _ _ _ h.lv)
+    rw [List.map_map] at this
+    exact this
+  · show sumSizes (s.levels.map (fun l => Level.fresh s.n l.size)) = S
+    rw [sumSizes_clear]; exact h.ss
+
 /-- No `Clear` in the history (the multi-level theorem is stated for histories of adds and reads). -/
 def noClear : List Op → Bool
   | [] => true
@@ -406,14 +447,14 @@ def timesFit (S : Int) : List Op → Bool
   | _ :: rest => timesFit S rest
 
 theorem mi_run (sz S : Int) (ops : List Op) :
-    ∀ (s : TS) (Hm Hp H0 : Hist) (T : Int), MI s sz Hm Hp T S → timesFit S ops = true → noClear ops = true →
+    ∀ (s : TS) (Hm Hp H0 : Hist) (T : Int), MI s sz Hm Hp T S → timesFit S ops = true →
       PE s → (∀ lo hi, sumIn lo hi Hm + sumIn lo hi Hp = sumIn lo hi H0) →
       ∃ Hm' Hp' T', MI (s.run ops) sz Hm' Hp' T' S ∧
         ∀ lo hi, sumIn lo hi Hm' + sumIn lo hi Hp' = sumIn lo hi (histList ops H0) := by
   induction ops with
-  | nil => intro s Hm Hp H0 T h _ _ _ hH; exact ⟨Hm, Hp, T, h, hH⟩
+  | nil => intro s Hm Hp H0 T h _ _ hH; exact ⟨Hm, Hp, T, h, hH⟩
   | cons op rest ih =>
-    intro s Hm Hp H0 T h hin hnc hpe hH
+    intro s Hm Hp H0 T h hin hpe hH
     have hrun : s.run (op :: rest) = (s.step op).run rest := by simp [TS.run]
     rw [hrun]
     have hpe' := pe_step hpe op
@@ -425,16 +466,16 @@ theorem mi_run (sz S : Int) (ops : List Op) :
         simp only [noAddBehind, Bool.and_eq_true, Bool.not_eq_true'] at this
         exact this.1
       obtain ⟨Hm', Hp', m', hs⟩ := mi_add h t v hin.1.1 hin.1.2 hnb
-      exact ih _ Hm' Hp' ((t, v) :: H0) _ m' hin.2 (by simpa [noClear] using hnc) hpe' (by
+      exact ih _ Hm' Hp' ((t, v) :: H0) _ m' hin.2 hpe' (by
         intro lo hi; rw [hs lo hi, hH lo hi]; simp only [sumIn])
     | total =>
-      exact ih _ _ _ H0 _ (mi_mergePending h) (by simpa [timesFit] using hin) (by simpa [noClear] using hnc) hpe'
+      exact ih _ _ _ H0 _ (mi_mergePending h) (by simpa [timesFit] using hin) hpe'
         (by intro lo hi; rw [sumIn_append]; simp only [sumIn]; have := hH lo hi; omega)
     | latest now level num =>
       simp only [timesFit, Bool.and_eq_true, decide_eq_true_eq] at hin
       have hst : s.step (.latest now level num) = s.catchUp now := latest_state s now level num
       rw [hst] at hpe' ⊢
-      exact ih _ _ _ H0 _ (mi_catchUp h now hin.1.1 hin.1.2) hin.2 (by simpa [noClear] using hnc) hpe'
+      exact ih _ _ _ H0 _ (mi_catchUp h now hin.1.1 hin.1.2) hin.2 hpe'
         (by intro lo hi; rw [sumIn_append]; simp only [sumIn]; have := hH lo hi; omega)
     | latestBuckets now level num =>
       simp only [timesFit, Bool.and_eq_true, decide_eq_true_eq] at hin
@@ -442,23 +483,24 @@ theorem mi_run (sz S : Int) (ops : List Op) :
       rw [hstep] at hpe' ⊢
       rcases latestBuckets_state s now level num with e | e
       · rw [e] at hpe' ⊢
-        exact ih _ Hm Hp H0 _ h hin.2 (by simpa [noClear] using hnc) hpe' hH
+        exact ih _ Hm Hp H0 _ h hin.2 hpe' hH
       · rw [e] at hpe' ⊢
-        exact ih _ _ _ H0 _ (mi_catchUp h now hin.1.1 hin.1.2) hin.2 (by simpa [noClear] using hnc) hpe'
+        exact ih _ _ _ H0 _ (mi_catchUp h now hin.1.1 hin.1.2) hin.2 hpe'
           (by intro lo hi; rw [sumIn_append]; simp only [sumIn]; have := hH lo hi; omega)
     | computeRange a b num =>
       have hstep : s.step (.computeRange a b num) = (s.computeRange a b num).1 := rfl
       rw [hstep] at hpe' ⊢
       rcases computeRange_state s a b num with e | e
       · rw [e] at hpe' ⊢
-        exact ih _ Hm Hp H0 _ h (by simpa [timesFit] using hin) (by simpa [noClear] using hnc) hpe' hH
+        exact ih _ Hm Hp H0 _ h (by simpa [timesFit] using hin) hpe' hH
       · rw [e] at hpe' ⊢
-        exact ih _ _ _ H0 _ (mi_mergePending h) (by simpa [timesFit] using hin) (by simpa [noClear] using hnc) hpe'
+        exact ih _ _ _ H0 _ (mi_mergePending h) (by simpa [timesFit] using hin) hpe'
           (by intro lo hi; rw [sumIn_append]; simp only [sumIn]; have := hH lo hi; omega)
-    | clear => simp [noClear] at hnc
+    | clear =>
+      exact ih _ [] [] [] _ (mi_clear h) (by simpa [timesFit] using hin) hpe' (by intro lo hi; rfl)
 
 def resOK (n : Nat) (sz0 : Int) (rs : List Int) : Prop :=
-  ∀ r ∈ rs, 0 < r ∧ r % sz0 = 0 ∧ r * n ≤ maxDur ∧ zeroTime % r = 0
+  ∀ r ∈ rs, 0 < r ∧ r % sz0 = 0 ∧ r * n ≤ maxDur
 
 theorem sumSizes_fresh (n : Nat) (rs : List Int) : sumSizes (rs.map (Level.fresh n)) = rs.sum := by
   induction rs with
@@ -468,23 +510,23 @@ theorem sumSizes_fresh (n : Nat) (rs : List Int) : sumSizes (rs.map (Level.fresh
 theorem mi_init (n : Nat) (sz : Int) (rest : List Int) (hn : 1 ≤ n) (hsz : 0 < sz) (hcap : sz * n ≤ maxDur)
     (hZ : zeroTime % sz = 0) (hres : resOK n sz (sz :: rest)) (hS : zeroTime + (sz :: rest).sum ≤ maxDur) :
     MI (TS.init n (sz :: rest)) sz [] [] zeroTime (sz :: rest).sum :=
-  ⟨ri_init n sz rest hn hsz hcap hZ, lv_fresh n sz hn hZ (sz :: rest) 0 (by omega) hres,
-   sumSizes_fresh n (sz :: rest), hS, hsz⟩
+  ⟨ri_init n sz rest hn hsz hcap hZ, lv_fresh n sz hn zeroTime (Int.le_refl _) (sz :: rest) 0 (by omega) hres,
+   sumSizes_fresh n (sz :: rest), hS, hsz, hZ, Int.le_refl _⟩
 
 /-- **C61, second clause, every level.** For every configuration whose resolutions are positive multiples
-of the finest one, divide the zero time and fit `numBuckets` times into an int64 duration, and for every
-history of adds (any order, any rollovers, far jumps) and reads (`Total`, `Latest`, `LatestBuckets`,
-`ComputeRange`) whose times leave room for the level ends (`t + Σ resolutions ≤ maxDur`): if the range
+of the finest one (the finest one dividing the zero time) and fit `numBuckets` times into an int64 duration, and for every
+history of adds (any order, any rollovers, far jumps), reads (`Total`, `Latest`, `LatestBuckets`,
+`ComputeRange`) and `Clear`s whose times leave room for the level ends (`t + Σ resolutions ≤ maxDur`): if the range
 `[a, b)` is aligned to the bucket grid of the level `ComputeRange` picks (the finest level whose retained
 window contains `a`) and starts inside that level's window, `Range(a, b)` reports exactly the observations
 added in it — the proportional-interpolation branch of `extract` is never taken (no approximation flag). -/
 theorem range_aligned_exact (n : Nat) (sz : Int) (rest : List Int) (hn : 1 ≤ n) (hsz : 0 < sz)
     (hcap : sz * n ≤ maxDur) (hZ : zeroTime % sz = 0) (hres : resOK n sz (sz :: rest))
     (hS : zeroTime + (sz :: rest).sum ≤ maxDur) (ops : List Op) (a b : Int)
-    (hin : timesFit (sz :: rest).sum ops = true) (hnc : noClear ops = true)
+    (hin : timesFit (sz :: rest).sum ops = true)
     (hal : alignedPicked ((TS.init n (sz :: rest)).run ops) a b = true) :
     (((TS.init n (sz :: rest)).run ops).range a b).2 = some ⟨obsIn a b 0 ops, false⟩ := by
-  obtain ⟨Hm, Hp, T, m, hs⟩ := mi_run sz _ ops _ [] [] [] zeroTime (mi_init n sz rest hn hsz hcap hZ hres hS) hin hnc
+  obtain ⟨Hm, Hp, T, m, hs⟩ := mi_run sz _ ops _ [] [] [] zeroTime (mi_init n sz rest hn hsz hcap hZ hres hS) hin
     (pe_init n sz rest hsz) (by intro lo hi; rfl)
   rw [mi_range m a b hal, hs a b]
   have := obsIn_histList a b ops []
